@@ -1422,7 +1422,7 @@ def gen_preproc(draw, tier="quick"):
         }
     case["oor"] = draw(st.integers(0, 4)) == 0  # a few values out of the normalizer's range
     case["pass_class"] = draw(st.booleans())
-    case["fit"] = draw(st.integers(0, 5)) == 0
+    case["fit"] = draw(st.integers(0, 2)) == 0
     return case
 
 
@@ -1525,6 +1525,37 @@ def check_preproc(case, rec):
         rec.label("fit")
         kwp["fit_normalizer"] = True
     got = _ve(tags, pos, _field_arg(f), case["edges"], **kwp)
+    # ... also when the normalizer is fitted on the way: a NaN / no_data entry of a single field is a removed point, for the
+    # fitted parameters as well as for the variogram
+    if fit:
+        rec.label(f"fitcase:nf{f.shape[0]}:n{min(f.shape[1], 9)}:oor{int(bool(case['oor']))}:edges{int(case['edges'] is not None)}")
+    if fit and f.shape[0] == 1 and f.shape[1] >= 8 and not case["oor"] and case["edges"] is not None and not isinstance(kwp.get("mean"), np.ndarray) \
+            and not isinstance(kwp.get("trend"), np.ndarray):
+        missp = ((np.arange(f.shape[1]) * 5 + case.get("seed", 0)) % 6) == 2
+        keep = (~missp) & np.isfinite(f[0])  # the reference sees complete data only
+        if missp.any() and keep.sum() >= 6 and np.unique(det[0, keep]).size >= 4:
+            kw_fit = dict(kwp)
+            kw_fit["normalizer"] = _mk_norm(case)
+            ref_r = _ve(tags, np.asarray(pos)[:, keep], f[:, keep][0], case["edges"], **kw_fit)
+            for enc in ("nan", "no_data"):
+                kw_fit = dict(kwp)
+                kw_fit["normalizer"] = _mk_norm(case)
+                if enc == "nan":
+                    got_r = _ve(tags, pos, np.where(missp, np.nan, f[0]), case["edges"], **kw_fit)
+                else:
+                    got_r = _ve(tags, pos, np.where(missp, -999.25, f[0]), case["edges"], no_data=-999.25, **kw_fit)
+                l1, l2 = float(got_r[3].lmbda), float(ref_r[3].lmbda)
+                if not math.isfinite(l2):
+                    rec.label("missing+fit:reference_fit_degenerate")
+                    continue
+                require(
+                    (l1 == l2) or abs(l1 - l2) <= 1e-6 * (1 + abs(l2)),
+                    f"normalizer fitted with missing values given as {enc}: lmbda = {l1!r}, with those points removed: {l2!r}",
+                    dict(tags, rel="preproc", enc=enc + "+fit"),
+                )
+                require(bool(np.array_equal(got_r[2], ref_r[2])), f"fit_normalizer with missing values given as {enc}: pair counts {got_r[2].tolist()} vs removal {ref_r[2].tolist()}",
+                        dict(tags, rel="preproc", enc=enc + "+fit"))
+            rec.label("missing+fit", "missing+fit:" + norm)
     if fit:
         require(len(got) == 4, "fit_normalizer=True did not return the normalizer", tags)
         fitted = got[3]
